@@ -424,24 +424,24 @@ func TestCheck(t *testing.T) {
 	rep := mon.NewReporter(cfg, "exploration",
 		"one case = one generated well-formed construction (typed lambdas, pass-through nodes, keyed ports, typed branches, state handlers over a 9-type universe, types partly hostile) added in every order of its edge/branch calls (≤5 calls: all orders, else 200 random), each order 3×, every accepted graph run in Invoke and Stream with every legal dynamic input value × branch choices × emitted dynamic values; non-trivial = at least one order compiled and the construction contains a pass-through node, a branch or a may-assignable connection",
 		[]string{
-			"node, condition and handler bodies never fail by themselves and only forward errors they receive from the framework's streams",
-			"the reference lattice is reflect's AssignableTo/Implements; pass-through nodes are transparent in the reference",
-			"an error at a pass-through node is accepted as legitimate when the value does not fit the type eino reports (GraphInfo) as inferred for that node",
-			"a nil interface value is not a dynamic value and is not generated",
+			"node, condition and handler bodies never fail by themselves and only forward errors they receive from the framework's streams, so every failure of a run over a compiled graph is the framework's",
+			"the reference lattice is reflect's AssignableTo/Implements (must / may / must-not); a connection is judged between the declared types of its two ends, a pass-through node carrying the type eino reports for it in GraphInfo provided that type is the type of a typed neighbour of the node's pass-through component (otherwise the node is transparent)",
+			"only soundness is judged: accepted ⇒ no panic, an ordinary error exactly when a dynamic value is not assignable across a may-connection; rejections of constructions the order-independent (transparent) reference considers well typed are only counted (info_completeness_*)",
+			"a nil interface value has no dynamic type and is not generated; runs whose failure would be legitimate for another reason (input key absent from the map, several non-map chunks to concatenate) are not generated or counted as unjudged",
 		}, cfg.Pick(60, 2000))
 	defer func() {
 		if err := rep.Flush(); err != nil {
 			t.Fatalf("flush: %v", err)
 		}
 	}()
-	n := int64(cfg.Pick(25, 600))
+	n := int64(cfg.Pick(25, 500))
 	rep.Cases(n, func(idx int64, rng *mon.Rand) {
 		runCase(rep, idx, rng)
 	})
 	rep.Require("attempts_accepted", 100)
 	rep.Require("runs_expected_error", 20)
 	rep.Require("runs_ok", 100)
-	rep.Require("specs_order_dependent_acceptance", 1)
+	rep.Require("specs_order_dependent", 1)
 }
 
 func runCase(rep *mon.Reporter, idx int64, rng *mon.Rand) {
@@ -473,6 +473,7 @@ func runCase(rep *mon.Reporter, idx int64, rng *mon.Rand) {
 	}
 	cache := simCache{}
 	accepted, rejected := 0, 0
+	typings := map[string]bool{} // distinct inferred typings of the pass-through nodes over all accepted attempts
 	done := map[string]string{} // violation key -> signature (shrunk once per case)
 	for oi, ord := range orders {
 		a := attempt{Order: ord, Policy: oi % 3}
@@ -506,8 +507,10 @@ func runCase(rep *mon.Reporter, idx int64, rng *mon.Rand) {
 			accepted++
 			rep.Count("attempts_accepted", 1)
 			if refReject {
-				rep.Count("attempts_accepted_though_reference_demands_rejection", 1)
+				rep.Count("info_attempts_accepted_though_transparent_reference_demands_rejection", 1)
 			}
+			_, ptSig := passTypes(b, sref)
+			typings[ptSig] = true
 			for k, t := range b.inferred {
 				if t[0] >= 0 {
 					rep.Count("passthrough_types_observed", 1)
@@ -554,6 +557,12 @@ func runCase(rep *mon.Reporter, idx int64, rng *mon.Rand) {
 	}
 	if accepted > 0 && rejected > 0 {
 		rep.Count("specs_order_dependent_acceptance", 1)
+	}
+	if len(typings) > 1 {
+		rep.Count("specs_order_dependent_inference", 1)
+	}
+	if len(typings) > 1 || (accepted > 0 && rejected > 0) {
+		rep.Count("specs_order_dependent", 1)
 	}
 	if accepted > 0 {
 		rep.Count("specs_accepted_in_some_order", 1)
